@@ -2,3 +2,5 @@ import Setproto.Set
 import Setproto.Set32
 import Setproto.SetF
 import Setproto.Set32F
+import Setproto.TinyC
+import Setproto.SetC
